@@ -578,7 +578,7 @@ Inductive vty :=
 Inductive vkey :=
 | KField                       (* o.get(field, MISSING) *)
 | KAlias1 (a : pstr)
-| KAliasN (l : list pstr)
+| KAliasN (a : pstr) (l : list pstr)     (* two or more aliases *)
 | KPath1 (p : list pstr).
 
 Record v1_field := {
@@ -652,9 +652,9 @@ Definition v1_field_stmt (sh : v1_shape) (fi : nat) (f : v1_field) : stmt :=
   match vf_key f with
   | KField => sseq [set_field; SAssign [S "v1"] ENil (get_missing (N_ "field")); SIf found_simple body SSkip]
   | KAlias1 a => sseq [set_field; SAssign [S "v1"] ENil (get_missing (EStr a)); SIf found_simple body SSkip]
-  | KAliasN l =>
+  | KAliasN a l =>
       sseq [set_field;
-            SIf (eapps (map (fun a => eapps [EWalrus (S "v1") (get_missing (EStr a)); N_ "MISSING"]) l)) body SSkip]
+            SIf (eapps (map (fun a => eapps [EWalrus (S "v1") (get_missing (EStr a)); N_ "MISSING"]) (a :: l))) body SSkip]
   | KPath1 p =>
       sseq [set_field; SAssign [S "v1"] ENil (call (N_ "safe_get") [N_ "o"; strs p]); SIf found_simple body SSkip]
   end.
